@@ -8,6 +8,7 @@ import (
 
 	"github.com/lindb/lindb/models"
 	"github.com/lindb/lindb/series/field"
+	"github.com/lindb/lindb/series/metric"
 	"github.com/lindb/lindb/series/tag"
 	"github.com/lindb/lindb/sql/stmt"
 	"github.com/lindb/lindb/verif/internal/node"
@@ -117,3 +118,5 @@ func (s idSet) collision(row *rowRec, now *rowIDs) string {
 	}
 	return hits[0]
 }
+
+func metricID(i int) metric.ID { return metric.ID(i) }
